@@ -4,6 +4,7 @@ package executor
 
 import (
 	"context"
+	"time"
 
 	"github.com/ChainSafe/sygma-relayer/relayer/transfer"
 )
@@ -12,4 +13,16 @@ import (
 func (e *Executor) VerifC03WatchExecution(ctx context.Context, cancel context.CancelFunc, ps []*transfer.TransferProposal,
 	sigChn chan interface{}, sessionID string) error {
 	return e.watchExecution(ctx, cancel, ps, sigChn, sessionID)
+}
+
+// VerifC03AreProposalsExecuted calls the unexported tick decision of watchExecution.
+func (e *Executor) VerifC03AreProposalsExecuted(ps []*transfer.TransferProposal) bool {
+	return e.areProposalsExecuted(ps)
+}
+
+// VerifC03SetCheckPeriod sets the package variable executionCheckPeriod and returns the previous value.
+func VerifC03SetCheckPeriod(d time.Duration) time.Duration {
+	old := executionCheckPeriod
+	executionCheckPeriod = d
+	return old
 }
